@@ -2,6 +2,7 @@
 #define _GNU_SOURCE
 #include "wrap_main.h"
 #include <errno.h>
+#include <stdio.h>
 #include <string.h>
 
 struct main_state M;
@@ -28,3 +29,32 @@ uid_t __wrap_getuid(void) { return M.uid; }
 gid_t __wrap_getgid(void) { return M.gid; }
 pid_t __wrap_getpid(void) { return M.pid; }
 int __wrap_getgroups(int n, gid_t *l) { return M.ngroups; }
+
+/* the daemon has no business changing its working directory: relative names (the designated path `.`, relative
+   store roots) mean what they meant when it was started.  Recorded, not performed. */
+int __wrap_chdir(const char *path) {
+  printf("chdir h");
+  for (const unsigned char *c = (const unsigned char *)path; *c; ++c) {
+    printf("%02x", *c);
+  }
+  printf("\n");
+  return 0;
+}
+int __wrap_fchdir(int fd) {
+  printf("chdir h2366642025642020\n");
+  (void)fd;
+  return 0;
+}
+
+/* the working directory of the scripted world is /cwd (what `.` resolves to in the scripts) */
+char *__wrap_getcwd(char *buf, size_t size) {
+  const char *cwd = "/cwd";
+  if (!buf) {
+    return strdup(cwd);
+  }
+  if (size < strlen(cwd) + 1) {
+    errno = ERANGE;
+    return NULL;
+  }
+  return strcpy(buf, cwd);
+}
